@@ -205,10 +205,8 @@ Section Refresh.
     {| f_id := f_id f; f_url := f_url f; f_enabled := f_enabled f; f_name := f_name f; f_count := 0; f_sum := 0 |}.
 
   (** The checksum of the entry after a failed call: the deferred function
-      restores URL, name, enabled flag, last update and rule count, NOT the
-      checksum, so it is what [unload] / [update] left (zero after a URL
-      change). *)
-  Definition restored_sum (f : flist) (u : upd) : N := f_sum (u_list u).
+      restores URL, name, enabled flag, last update, rule count and checksum. *)
+  Definition restored_sum (f : flist) (u : upd) : N := f_sum f.
 
   (** Result for one entry: (should restart, error, the entry afterwards,
       files).  [nurl] is the URL of the request, [dup] says that some list of
